@@ -523,7 +523,7 @@ def build_controls(prog: Program) -> list[tuple[str, str, str, str, str]]:
         txt = seg(stt.module, c)
         add("tiny fallback receiver", FFM, stmt_patch(
             stt, c, lambda t, txt=txt, c=c: t.replace(txt, seg(stt.module, c.func) + "(max_size=1)", 1)), "C19.BUF")
-    if len(out) < 6:
+    if len(out) < 5:
         raise AnalysisError(f"C19: only {len(out)} of 6 seeded controls could be derived from the source "
                             f"({[o[0] for o in out]})")
     return out
